@@ -68,7 +68,7 @@ CHECKS["C12"] = dict(
   text="Design check: for every site of the site table and every permutation of 4 keys the emitted sequence is schedule independent (it is not for the pinned tree's three ranged sites, cfg v0). Code: a map-fat spec with >= 4 entries in every map-typed construct, the kitchen and carrier specs and a seeded sample of matrix cells are each generated 24 (thorough 96) times across separate processes; every run of one input must give the same result (or the same error text) and identical sha256 per file. Schedules of Go's map iteration are sampled, not enumerated (exploration).",
   note="With k >= 4 entries and a first-key-wins or whole-order site, a pair of runs differs with probability >= 3/4, so 24 runs miss an influencing site with probability <= 4^-23. The site table is a model; unlisted ranged sites would still be caught by the hash comparison if the corpus exercises them.")
 
-CODEC_NOTE = "Values are compared by projection (nil = empty collections, times as instants). JSON leaves are tokenised by strconv / time.Parse (trusted). Struct fields are bound to properties by normalised name. Schemas whose generated code does not build are excluded by the pre-flight and counted (C01 owns them). One open finding (named date-time component) carries a TLA+ selector."
+CODEC_NOTE = "Besides the enumerated universe of MC_Codec every run takes 150 (thorough: 1200) seeded random schema compositions nested to depth 3 over all constructs (randschema.go). Values are compared by projection (nil = empty collections, times as instants). JSON leaves are tokenised by strconv / time.Parse (trusted). Struct fields are bound to properties by normalised name. Schemas whose generated code does not build are excluded by the pre-flight and counted (C01 owns them). One open finding (named date-time component) carries a TLA+ selector."
 CHECKS["C06"] = dict(
   level="model_checking", design="§4 C06, spec/Codec.tla (VEq, NoDupDeep, writer machine), spec/MC_Codec.tla, spec/Trace_Codec.tla",
   technique="TLA+ model of the generated object writer's comma protocol checked by TLC (MC_Codec); TLC-enumerated schema universe generated and compiled; seeded boundary values and values decoded from schema-derived documents round-tripped through the real MarshalJSON/UnmarshalJSON; validity, duplicate keys and value equality judged by TLC (Trace_Codec)",
